@@ -31,6 +31,10 @@ type C37Config struct {
 	Func   string        // e.g. "tbtc.notifyDKGStarted" (goes into violation classes)
 	Period time.Duration // the caching period of that event kind
 	Events []C37Event
+	// MakeBurst, if set, returns n further events, distinct from each other
+	// and from Events, derived only from base. They are used by the final
+	// ungated batch (truly parallel deliveries, scheduled by Go).
+	MakeBurst func(base uint64, n int) []C37Event
 }
 
 type c37Op struct {
@@ -189,17 +193,114 @@ func C37Run(r *verifsim.Run, cfg C37Config) {
 		mu.Unlock()
 	}
 
-	// ---- oracle ----
+	if !c37Judge(r, cfg, ops, &mu) {
+		return
+	}
+	if cfg.MakeBurst != nil && tp.Chance("ungated-batch", 2, 3) {
+		c37Ungated(r, cfg)
+	}
+}
+
+// c37Ungated: G goroutines, started by one close(startCh), each deliver all
+// burst events (rotated order) with no gate, no hook and no harness
+// synchronisation between them, so that the race detector judges the
+// deduplicator's own synchronisation and Go schedules the calls in parallel.
+// Outcomes are not logged (they may legitimately differ between replays); the
+// judged clause is order-independent: every distinct event is accepted exactly
+// once (all deliveries happen at one instant of the fake clock, the events
+// were never delivered before).
+const (
+	c37UngatedPasses = 8
+	c37UngatedReps   = 6
+)
+
+func c37Ungated(r *verifsim.Run, cfg C37Config) {
+	tp := r.T
+	g := 4 + tp.Choose("ungated-goroutines", 5)
+	n := 4 + tp.Choose("ungated-events", 9)
+	base := tp.Uint64("burst-base")
+	cache.YieldHook = nil
+	r.Fault("ungated-parallel-batch")
+	r.Logf("ungated batches: %d goroutines x %d distinct events", g, n)
+	// the batch is repeated with fresh events: whether a scheduling-dependent
+	// defect shows in one batch is up to Go's scheduler; on code that holds the
+	// property every repetition passes
+	for rep := 0; rep < c37UngatedReps && !r.Failed(); rep++ {
+		evs := cfg.MakeBurst(verifsim.Mix(base, uint64(rep)), n)
+		if len(evs) < 2 {
+			return
+		}
+		c37UngatedOnce(r, cfg, g, evs)
+	}
+}
+
+func c37UngatedOnce(r *verifsim.Run, cfg C37Config, g int, evs []C37Event) {
+	startCh := make(chan struct{})
+	var wg sync.WaitGroup
+	res := make([][]int, g)
+	pans := make([]string, g)
+	for i := 0; i < g; i++ {
+		res[i] = make([]int, len(evs))
+		wg.Add(1)
+		go func(i int) {
+			defer wg.Done()
+			defer func() {
+				if p := recover(); p != nil {
+					pans[i] = fmt.Sprint(p)
+				}
+			}()
+			<-startCh
+			// several passes, so that the goroutines certainly overlap in time;
+			// only the first pass can be accepted, later ones are duplicates
+			off := i * len(evs) / g
+			for pass := 0; pass < c37UngatedPasses; pass++ {
+				for j := range evs {
+					k := (j + off + pass) % len(evs)
+					if evs[k].Deliver() {
+						res[i][k]++
+					}
+				}
+			}
+		}(i)
+	}
+	synctest.Wait()
+	close(startCh)
+	wg.Wait()
+	for i := range pans {
+		if pans[i] != "" {
+			r.Failf("C37:panic:"+cfg.Func, "parallel delivery panicked: %s", pans[i])
+			return
+		}
+	}
+	for k, ev := range evs {
+		trues := 0
+		for i := 0; i < g; i++ {
+			trues += res[i][k]
+		}
+		switch {
+		case trues == 0:
+			r.Failf("C37:parallel-lost-event:"+cfg.Func, "ungated batch (%d goroutines x %d distinct events): event {%s} was delivered %d times and never accepted", g, len(evs), ev.Desc, g*c37UngatedPasses)
+			return
+		case trues > 1:
+			r.Failf("C37:parallel-double-accept:"+cfg.Func, "ungated batch (%d goroutines x %d distinct events): event {%s} was accepted %d times within one instant", g, len(evs), ev.Desc, trues)
+			return
+		}
+	}
+}
+
+// c37Judge is the oracle over the gated history. Returns false if the run is over.
+func c37Judge(r *verifsim.Run, cfg C37Config, ops []*c37Op, mu *sync.Mutex) bool {
+	P := cfg.Period
 	mu.Lock()
 	defer mu.Unlock()
 	for _, op := range ops {
 		if !op.done {
 			r.Inconclusive("delivery-not-finished")
-			return
+			return false
 		}
 		if op.panicked != "" {
 			r.Failf("C37:panic:"+cfg.Func, "delivery of event %s panicked: %s", cfg.Events[op.ev].Desc, op.panicked)
-			return
+			return false
 		}
 	}
 	// (A) at most one delivery of one event handled within a caching period
@@ -220,7 +321,7 @@ func C37Run(r *verifsim.Run, cfg C37Config) {
 				r.Failf("C37:double-accept:"+cfg.Func,
 					"event {%s} was accepted twice within one caching period (%v): delivery #%d [%v..%v] and delivery #%d [%v..%v] both returned true (overlapping calls: %v)",
 					cfg.Events[a.ev].Desc, P, a.id, a.ti, a.tr, b.id, b.ti, b.tr, conc)
-				return
+				return false
 			}
 		}
 	}
@@ -267,6 +368,7 @@ func C37Run(r *verifsim.Run, cfg C37Config) {
 			r.Failf("C37:first-delivery-rejected:"+cfg.Func,
 				"delivery #%d of event {%s} returned false although nothing had been accepted before", x.id, cfg.Events[x.ev].Desc)
 		}
-		return
+		return false
 	}
+	return true
 }
